@@ -110,6 +110,7 @@ def verifyTxs (env : Env) (cfg : Cfg) (l : Ledger) (b : Block) (prevTs : Int) :
 /-- `verifyBlock(neighborBlock, previousBlockTimestamp, timestamp)` on the state `l` -/
 def verifyBlock (env : Env) (cfg : Cfg) (l : Ledger) (b : Block) (prevTs now : Int) : Except String Unit :=
   if b.ts ≠ prevTs + cfg.interval then .error "bad-block-ts"
+  else if b.ts == 0 then .error "zero-block-ts"      -- 0 is what the pool reads as "no block yet" (fix: commit)
   else if b.ts > now then .error "future-block"
   else
     match verifyTxs env cfg l b prevTs b.txs false 0 0 with
